@@ -127,6 +127,52 @@ pub fn generate(seed: u64, cases: usize, out: &mut Vec<String>) {
         out.push(format!("# case fixedneg{} seed {}", i, seed));
         emit_negative(out, *n, es);
     }
+    // structured graphs for the connectivity algorithms: cycles glued at shared vertices (every
+    // shared vertex is a cut vertex), pendant paths (bridges), random extra chords, random labelling
+    for c in 0..(cases / 4 + 6) {
+        out.push(format!("# case cactus{} seed {}", c, seed));
+        let mut edges: Vec<(u64, u64)> = vec![];
+        let mut n: u64 = 1;
+        let cycles = r.range(2, 4);
+        for _ in 0..cycles {
+            let attach = r.below(n);
+            let len = r.range(3, 5);
+            let first = n;
+            n += len - 1;
+            edges.push((attach, first));
+            for v in first..n - 1 {
+                edges.push((v, v + 1));
+            }
+            edges.push((n - 1, attach));
+        }
+        for _ in 0..r.below(3) {
+            let a = r.below(n);
+            edges.push((a, n));
+            n += 1;
+        }
+        if r.chance(1, 3) {
+            edges.push((r.below(n), r.below(n)));
+        }
+        // relabel: a random permutation of the vertex names, random edge order and orientation
+        let mut perm: Vec<u64> = (0..n).collect();
+        for i in (1..perm.len()).rev() {
+            let j = r.below(i as u64 + 1) as usize;
+            perm.swap(i, j);
+        }
+        let mut es: Vec<E> = edges
+            .iter()
+            .map(|&(a, b)| if r.chance(1, 2) { (perm[a as usize], perm[b as usize], 1) } else { (perm[b as usize], perm[a as usize], 1) })
+            .collect();
+        for i in (1..es.len()).rev() {
+            let j = r.below(i as u64 + 1) as usize;
+            es.swap(i, j);
+        }
+        let g = show_edges(&es);
+        out.push(format!("algo artic {} {}", n, g));
+        out.push(format!("algo bridges {} {}", n, g));
+        out.push(format!("algo kcore {} {}", n, g));
+        out.push(format!("algo wcc {} {}", n, g));
+    }
     for c in 0..cases {
         out.push(format!("# case {} seed {}", c, seed));
         let n = match r.below(8) {
